@@ -451,7 +451,7 @@ def classify(ops):
 
 
 def tie(base, rep, m, tier, r):
-    n = 160 if tier == "quick" else 4000
+    n = 300 if tier == "quick" else 6000
     cases = corpus(base)
     allk = KINDS + NKINDS
     for i in range(n):
